@@ -1,8 +1,58 @@
-import EdpVerif.Drv.Common
+import EdpVerif.Drv.Etf
+import EdpVerif.Impl.DistHeader
+import EdpVerif.Spec.DistHeader
 namespace Edp.Drv
+open Edp Edp.DistHeader
 
-/-- driver requests of property C14 (stub: nothing handled yet) -/
+/-- `-` (no atoms / none observed) or comma-separated atoms, each lower-case hex, `e` for the empty atom -/
+def getAtoms (s : String) : Except String (List Bytes) :=
+  if s == "-" then .ok [] else
+  (s.splitOn ",").mapM fun a => if a == "e" then .ok [] else getHex a
+
+def getTerms (ts : List String) : Except String (List Term) := ts.mapM getTerm
+
+def showPair : Except DErr (Term × Option Term) → String
+  | .ok (c, none) => "ok " ++ c.text ++ " -"
+  | .ok (c, some p) => "ok " ++ c.text ++ " " ++ p.text
+  | .error .err => "err"
+  | .error (.trailing n) => "trailing " ++ toString n
+  | .error .panic => "panic"
+
+def c14enc (order : String) (ts : List String) : Except String String := do
+  let terms ← getTerms ts
+  let order ← if order == "?" then pure (dedup (atomsOfL terms)) else getAtoms order
+  -- the observed order must list exactly the atoms `collect_atoms` finds, each once
+  if !isOrderFor order terms then pure "bad-order" else
+  pure (showEnc (encodeDist order terms))
+
+def c14spec (o h : String) (ts : List String) : Except String String := do
+  let terms ← getTerms ts
+  let b ← getHex h
+  match Spec.DistHeader.readMessage (parseOracle o).env.inflate [] b with
+  | none => pure "FAIL spec-rejects"
+  | some (vs, _) =>
+    let want := terms.map Term.den
+    if vs == want then pure "ok"
+    else pure ("FAIL spec=" ++ " ".intercalate (vs.map Value.text) ++ " den=" ++ " ".intercalate (want.map Value.text))
+
+/-- `intended`: messages separated by `;`, the terms of one message by `&` -/
+def getIntended (s : String) : Except String (List (List Term)) :=
+  (s.splitOn ";").mapM fun m => (m.splitOn "&").mapM getTerm
+
 def handleC14 : List String → Option String
+  | "c14enc" :: order :: ts => some <| run (c14enc order ts)
+  | ["c14seq", o, ms] => some <| run do
+    let msgs ← (ms.splitOn ",").mapM getHex
+    pure (";".intercalate ((decodeSeq (parseOracle o).ext {} msgs).map showPair))
+  | "c14spec" :: o :: h :: ts => some <| run (c14spec o h ts)
+  | ["c14hist", o, ms, intended] => some <| run do
+    let msgs ← (ms.splitOn ",").mapM getHex
+    let want ← getIntended intended
+    let got := Spec.DistHeader.readSeq (parseOracle o).env.inflate [] msgs
+    if got == want.map (fun ts => some (ts.map Term.den)) then pure "ok"
+    else pure ("FAIL spec-reads " ++ " | ".intercalate (got.map fun
+      | some vs => " ".intercalate (vs.map Value.text)
+      | none => "rejected"))
   | _ => none
 
 end Edp.Drv
